@@ -93,6 +93,7 @@ type history struct {
 	extra    []staking.Address // fresh and reserved destinations
 	proposal uint64            // number of proposals submitted so far
 	// the harness's own bookkeeping of WHO must be slashed / rewarded (not read from events)
+	mock     bool           // MockEpochs history: epochs advance (and jump) only through SetEpoch transactions
 	frozen   map[int]bool   // validators frozen by an earlier slash (no unfreeze transactions are generated)
 	sigTotal uint64         // blocks counted in the current signing period (EpochSigning.Total)
 	sigBy    map[int]uint64 // blocks signed per validator entity in the period
@@ -123,9 +124,58 @@ func newHistory(seed uint64, run int, sum *coqout.Summary, w *coqout.Writer) (*h
 	if poolVariant != "comfortable" && gr.Chance(60) {
 		factorProp = 0 // keep the per-block proposer reward from draining the pool before the epoch rewards
 	}
+	debInt := []uint64{1, 2, 4}[gr.Intn(3)]
+	// epoch jumps: mock epochs, set by transactions, skipping 0..3 epochs at a time, with
+	// debonding intervals 1..4 so that debonding end times fall inside the skipped ranges
+	h.mock = gr.Chance(45)
+	if h.mock {
+		debInt = uint64(1 + gr.Intn(4))
+	}
+	genesisDebonding := gr.Chance(50)
 	g, err := muxdrv.NewGenesis(seed*131+uint64(run), muxdrv.GenesisOpts{
-		Validators: 4, Accounts: 10, EpochInterval: 4, DebondingInterval: []uint64{1, 2, 4}[gr.Intn(3)],
+		Validators: 4, Accounts: 10, EpochInterval: 4, DebondingInterval: debInt, MockEpochs: h.mock,
 		Mutate: func(doc *genesis.Document) {
+			if genesisDebonding {
+				// debonding delegations that are already expired or expire soon (end epochs 0..5, base
+				// epoch 1), into the escrow account with the smallest address, pool price below 1
+				var esc []staking.Address
+				for a, acc := range doc.Staking.Ledger {
+					if !acc.Escrow.Active.Balance.IsZero() {
+						esc = append(esc, a)
+					}
+				}
+				sort.Slice(esc, func(i, j int) bool { return bytes.Compare(esc[i][:], esc[j][:]) < 0 })
+				var dels []staking.Address
+				for a, acc := range doc.Staking.Ledger {
+					if acc.Escrow.Active.Balance.IsZero() {
+						dels = append(dels, a)
+					}
+				}
+				sort.Slice(dels, func(i, j int) bool { return bytes.Compare(dels[i][:], dels[j][:]) < 0 })
+				e := esc[0]
+				shares := uint64(0)
+				m := map[staking.Address][]*staking.DebondingDelegation{}
+				for i, end := range []uint64{0, 1, 2, 3, 3, 5} {
+					d := dels[i%3]
+					sh := uint64(1000 + 137*i)
+					// one entry per (delegator, end epoch)
+					dup := false
+					for _, x := range m[d] {
+						if uint64(x.DebondEndTime) == end {
+							dup = true
+						}
+					}
+					if dup {
+						continue
+					}
+					m[d] = append(m[d], &staking.DebondingDelegation{Shares: *quantity.NewFromUint64(sh), DebondEndTime: beacon.EpochTime(end)})
+					shares += sh
+				}
+				bal := shares * 9 / 10
+				doc.Staking.DebondingDelegations[e] = m
+				doc.Staking.Ledger[e].Escrow.Debonding = staking.SharePool{Balance: *quantity.NewFromUint64(bal), TotalShares: *quantity.NewFromUint64(shares)}
+				_ = doc.Staking.TotalSupply.Add(quantity.NewFromUint64(bal))
+			}
 			p := &doc.Staking.Parameters
 			p.FeeSplitWeightPropose = *quantity.NewFromUint64(wts[0])
 			p.FeeSplitWeightVote = *quantity.NewFromUint64(wts[1])
@@ -188,6 +238,8 @@ func newHistory(seed uint64, run int, sum *coqout.Summary, w *coqout.Writer) (*h
 	sum.Count("genesis_fee_weights", fmt.Sprintf("%d/%d/%d", wts[0], wts[1], wts[2]))
 	sum.Count("genesis_min_transact_balance", fmt.Sprint(minTransact))
 	sum.Count("genesis_common_pool", poolVariant)
+	sum.Count("genesis_epochs", map[bool]string{true: "mock (set-epoch transactions, jumps)", false: "insecure beacon (every 4 blocks)"}[h.mock])
+	sum.Count("genesis_debonding_delegations", map[bool]string{true: "6 entries, end epochs 0..5, price 0.9", false: "none"}[genesisDebonding])
 	sum.Count("genesis_reward_factor_proposed", fmt.Sprint(factorProp))
 	sum.Count("genesis_debonding_interval", fmt.Sprint(uint64(g.Doc.Staking.Parameters.DebondingInterval)))
 	for i := 0; i < 4; i++ {
@@ -555,6 +607,12 @@ func (h *history) genTx(r *prng.R, v *blockView, nonces map[staking.Address]uint
 	}
 	var tx func(nonce uint64, fee *transaction.Fee) *transaction.Transaction
 	m := r.Intn(100)
+	if h.mock && m >= 92 && m < 97 {
+		// no governance proposals when epochs jump: a proposal whose closing epoch is skipped
+		// stays active forever (governance closes on equality), which the in-tree sanity
+		// checker reports; production beacons advance by exactly one
+		m = r.Intn(24)
+	}
 	switch {
 	case m < 24:
 		to, tk := h.anyAddr(r, s.addr)
@@ -946,6 +1004,22 @@ func (h *history) block(blockNo int, total int) (*blockOut, error) {
 		t := h.genTx(r, pre, nonces)
 		gts = append(gts, t)
 		cand = append(cand, t.raw)
+	}
+	if h.mock && r.Chance(35) {
+		// advance the epoch by 1..4 (takes effect in the next block)
+		sd := h.senders[4+r.Intn(9)]
+		nn, ok := nonces[sd.addr]
+		if !ok {
+			nn = pre.nonce(sd.addr)
+		}
+		jump := uint64([]int{1, 1, 2, 3, 4}[r.Intn(5)])
+		t := &genTx{snd: sd, nonce: nn, fee: big.NewInt(int64(r.Intn(5))), gas: muxdrv.DefaultGas, method: "set_epoch",
+			flavor: "other", body: func(_ *index, ok bool) string { return fmt.Sprintf("(BOther %s)", coqout.Bool(ok)) }}
+		t.raw = muxdrv.Sign(sd.key, muxdrv.TxSetEpoch(nn, &transaction.Fee{Amount: qty(t.fee), Gas: transaction.Gas(t.gas)}, pre.dump.Epoch+jump))
+		nonces[sd.addr] = nn + 1
+		gts = append(gts, t)
+		cand = append(cand, t.raw)
+		h.sum.Count("epoch_jump", fmt.Sprint(jump))
 	}
 	txs, err := h.reps[pi].Propose(in, cand)
 	if err != nil {
